@@ -42,7 +42,9 @@ UNIT_NAMES = ['femtogram', 'picogram', 'nanogram', 'gram', 'kilogram', 'millimol
 EDGE_FLOATS = [0.0, -0.0, 1e300, 1e-300, -1e300, 5e-324, 1.7976931348623157e308, 0.1, 1 / 3,
                -2.5, 1e16, 123456789.125, 2.2250738585072014e-308]
 STRINGS = ['', 'abc', 'a]b[', 'units[1 fg]', '!unit', '1 fg', 'é', 'nan', 'nanometer',
-           '!units', '[x]', 'Serializer[y]', ' ', 'inf']
+           '!units', '[x]', 'Serializer[y]', ' ', 'inf',
+           # plain strings that merely START with the form of a serialized quantity
+           '!units[5 femtogram] (measured)', '!units[1 fg]\n', '!units[2 fg] ', 'x!units[1 fg]']
 
 
 def _unit_recipe(r):
